@@ -1361,7 +1361,14 @@ impl BPlusTree<File> {
 
 impl<F: VfsFile> BPlusTree<F> {
 	pub fn with_file(file: F, compare: Arc<dyn Comparator>) -> Result<Self> {
-		let storage_size = file.size()?;
+		// A tree is created by writing the header page and then the root page. A file
+		// shorter than those two pages is the remains of a creation that was interrupted
+		// (crash during the very first open): it never held any entry, so start over
+		// instead of failing to deserialize a root node that was never written.
+		let storage_size = match file.size()? {
+			size if size < 2 * PAGE_SIZE as u64 => 0,
+			size => size,
+		};
 
 		let (header, cache) = if storage_size == 0 {
 			// Initialize a new B+Tree
